@@ -9,7 +9,7 @@ SPEC = os.path.join(VERIF, "specs", "ChangeCache")
 HARNESS = ["harness/db/c08_changecache_test.go"]
 
 
-def run(ctx):
+def _run_core(ctx):
     q = ctx.quick()
     # 1. exhaustive: policy-independent safety for every feed (incl. contradictory ones); thorough adds the exact policy and a deeper legal-feed run
     #    (the exact policy of the tiny instance is also checked exhaustively by the Beh_ cfg in both tiers)
@@ -386,3 +386,12 @@ def locate_label(rows, idx):
         if rows[i]["a"] == "Reset":
             return rows[i]["beh"], i
     return None, 0
+
+
+def run(ctx):
+    """the property's own check, then (thorough tier) the end-to-end Pipeline stage (specs/Pipeline): the composed
+    write -> allocator -> feed -> change cache -> changes model, whose predicates owned by this property are reported here."""
+    _run_core(ctx)
+    if not ctx.quick():
+        import checks.Pipeline as pipeline
+        pipeline.run_stage(ctx, owners=["C08", "C01"], model=True, free=True)
